@@ -52,6 +52,11 @@ def gen_plan(rng, i: int, tier: str) -> dict:
         # third of these plans); both flavours must behave alike
         plan["delivery"] = dict(plan["delivery"] or {"mode": "whole"}, gaps=[[r2.randrange(0, 3), 0, r2.choice((0.5, 3.0, 6.0))]])
         plan["slow_dc"] = True
+    if 0.15 <= r2.random() < 0.27:
+        # fault: the key service port announced by the endpoint mapper refuses the first connection attempt of every operation
+        # (service restart); a call may fail with that error or try again, but whatever it asks for must be what the blob names
+        plan["conn_flap"] = 1
+        plan["concurrent"] = False
     n_ops = rng.randint(1, 6 if tier == "thorough" else 4)
     cur = gkdi.interval_of_filetime(now)
     for _ in range(n_ops):
@@ -152,6 +157,12 @@ def judge_one(plan, tr: P.Trace, fl: str):
         if slow and ot.outcome.kind == "raise" and isinstance(ot.outcome.exc, TimeoutError):
             probes["timed_out_on_slow_dc"] = 1  # (a read timeout is policy, not fidelity; the flavours must still agree, see below)
             continue
+        flap = bool(plan.get("conn_flap"))
+        if flap:
+            probes["key_port_refused_once"] = 1
+            if ot.outcome.kind == "raise" and isinstance(ot.outcome.exc, ConnectionRefusedError) and not gks:
+                probes["failed_with_connection_refused"] = 1  # (giving up is fine; the flavours must agree, see below)
+                continue
         if plan.get("_concurrent_now"):
             # the operations ran at once: attribute the DC's log entries by their arguments
             if ot.op["op"] == "unprotect":
@@ -166,9 +177,19 @@ def judge_one(plan, tr: P.Trace, fl: str):
             pool.remove(match[0])
             gks = [match[0]]
             probes["concurrent_ops"] = probes.get("concurrent_ops", 0) + 1
-        if len(gks) != 1:
+        if len(gks) != 1 and not (flap and len(gks) > 1):
             return V("request-fidelity", "getkey-count", f"{len(gks)} GetKey requests for one operation with a fresh cache", ot), probes
-        g = gks[0]
+        g = gks[-1]
+        if flap:
+            # (the library tried again after the refused connection: every request it made must be the faithful one)
+            if ot.op["op"] == "unprotect":
+                want_f = (dtyp.target_sd(ot.blob_spec["sid"]), tr.root_keys[ot.blob_spec["rk"]].root_key_id, *ot.blob_spec["pos"])
+            else:
+                want_f = (dtyp.target_sd(ot.op["sid"]), tr.root_keys[ot.op["rk"]].root_key_id if ot.op.get("rk") is not None else None, -1, -1, -1)
+            for g_ in gks:
+                if (g_.get("sd"), g_.get("root_key_id"), g_.get("l0"), g_.get("l1"), g_.get("l2")) != want_f:
+                    g = g_
+                    break
         # EPM hop: the ept_map request of this op asked for ISD_KEY over TCP (RefDC only answers those), second connect went to the mapped port
         if ot.op["op"] == "unprotect":
             spec = ot.blob_spec
@@ -261,7 +282,7 @@ class C17(common.Check):
             "current, corner, previous-L0 and DC-future positions, nonce and public-key mode, both layouts) against the reference DC with "
             "per-plan knobs: 4 hashes x {DH,P256,P384}, SIDs of 1..15 sub-authorities, domain/forest names 0..40 chars incl. non-ASCII, "
             "GKDI port, padding policy, header signing, envelope shape (L2 omitted at 31), DC clock skew, PRNG segmentation and latencies, "
-            "DNS discovery, a DC whose PDUs arrive after pauses of 0.5..6 s, security context (StubCtx 1..3 legs / real NTLM / real Negotiate). Each plan runs once per flavour; request log, "
+            "DNS discovery, a DC whose PDUs arrive after pauses of 0.5..6 s, a key service port that refuses the first connection attempt of every operation (failing with that error is accepted, asking for another key is not), security context (StubCtx 1..3 legs / real NTLM / real Negotiate). Each plan runs once per flavour; request log, "
             "results and sync-vs-async transcripts are judged; in 30% of the plans the async execution runs all operations at once (the "
             "conversations then interleave under the PRNG scheduler and are compared per connection) and a third execution runs them as "
             "caller threads using the sync API, pre-empted at PRNG-chosen line events inside dpapi_ng. Non-trivial = every plan; distinct = distinct plan.")
@@ -272,7 +293,7 @@ class C17(common.Check):
     assumptions = ["Kerberos is not simulated", "loopback TCP of the statement is replaced by the simulated transport",
                    "ept_map max_towers / handle / referent ids and alloc_hint are recorded, not judged"]
     required_fired = ("unprotect_ok", "protect_seed", "protect_public", "future_key", "non_member_unprotect", "dns", "real_ctx", "l2_omitted",
-                      "pos_corner", "prev_l0", "blob_pub", "concurrent_ops", "thread_ops", "thread_overlap", "slow_dc", "no_cache_argument")
+                      "pos_corner", "prev_l0", "blob_pub", "concurrent_ops", "thread_ops", "thread_overlap", "slow_dc", "no_cache_argument", "key_port_refused_once", "failed_with_connection_refused")
 
     def cases(self, tier, seed):
         rng = prng.stream(seed, "C17")
